@@ -85,6 +85,12 @@ theorem bandIsClosed_safe (b : Nat) : Safe (fun _ => True) (bandIsClosed b) := i
 theorem bandExists_safe (b : Nat) : Safe (fun _ => True) (bandExists b) := isFile_safe _
 theorem gcIsLocked_safe : Safe (fun _ => True) gcIsLocked := isFile_safe _
 
+/-- The second look `backup` takes at the lock never panics. -/
+theorem gcLockListed_safe : Safe (fun _ => True) gcLockListed := by
+  unfold gcLockListed
+  simp only [Prog.bind_def, Prog.pure_def]
+  repeat safe_step
+
 theorem lastCompleteBand_go_safe (ids : List Nat) : Safe (fun _ => True) (lastCompleteBand.go ids) := by
   induction ids with
   | nil => exact .ret trivial
